@@ -115,6 +115,9 @@ fn stallers(ctx: &mut Ctx) {
     let extra_offs: Vec<usize> = (1..nstall).map(|_| ctx.plan(hb.len() as u64 + if kind == Kind::Req || crowd { 0 } else { 1 }) as usize).collect();
     let extra_modes: Vec<Mode> = (1..nstall).map(|_| if crowd { Mode::Stop } else { MODES[ctx.plan(3) as usize] }).collect();
     let accept_error = ctx.idx >= 54 * (hb.len() as u64 + 1) && !ipc && ctx.plan(4) == 0;
+    // one disturbed case in 64: 1030..1200 sequential well-behaved clients behind the stallers
+    let long_history = ctx.idx >= 54 * (hb.len() as u64 + 1) && !crowd && !matches!(kind, Kind::Req | Kind::Push | Kind::Dealer) && ctx.plan(64) == 1; // (round-robin senders learn of a departure only when a write fails: a thousand departed clients would sit in their rotation and defeat the bounded probe below)
+    let long_n: u32 = 1030 + ctx.plan(170) as u32;
     let out = Rc::new(RefCell::new(Out::default()));
     let o2 = out.clone();
     let idx = ctx.idx;
@@ -218,6 +221,34 @@ fn stallers(ctx: &mut Ctx) {
                 }
             }
         }
+        // a long history behind the stallers: a thousand-odd clients come, complete their handshake
+        // and go, one after the other, while the first staller is still there
+        if long_history {
+            let mut served = 0u32;
+            for n in 0..long_n {
+                let Ok(mut g) = RawPeer::connect(&ep) else { break };
+                let _ = g.hello(peer_type, None).await;
+                if !matches!(rt::future::or_idle(g.wait_hello()).await, Some(Ok(_))) {
+                    o2.borrow_mut().detail = format!("client #{n} of a long sequence of well-behaved clients got no greeting and READY ({served} before it were served; the stallers are still connected)");
+                    break;
+                }
+                served += 1;
+                g.close();
+                if n % 64 == 63 {
+                    rt::task::idle().await;
+                    if kind == Kind::Xpub || kind.has_recv() && kind != Kind::Req {
+                        while let Some(_r) = rt::future::or_idle(sock.recv()).await {}
+                    }
+                }
+            }
+            o2.borrow_mut().good_total += 1;
+            o2.borrow_mut().possible_admits += long_n;
+            if served == long_n {
+                o2.borrow_mut().good_ok += 1;
+                o2.borrow_mut().sure_admits += 0;
+            }
+            rt::count("probe_long_history_of_clients");
+        }
         // an accept() call that fails (the kernel does that: ECONNABORTED, EMFILE) must not end the
         // accept loop: the client after it is still served
         if accept_error {
@@ -307,7 +338,7 @@ pub fn def() -> PropDef {
     PropDef {
         id: "C20",
         level: "fault_enumeration",
-        rule: "the case index enumerates bound socket type (9) x transport {tcp, ipc} x staller behaviour {stop sending, close, switch to garbage} x every byte offset 0..=N of greeting+READY at which the first staller acts; 0..2 further stallers with drawn offsets/behaviours (one disturbed case in sixteen: a crowd of 100..160 simultaneous silent stallers); well-behaved clients connect before, during (after each staller) and after, an established peer exchanges traffic before and after; first undisturbed, then under drawn transport/schedule; judged at quiescence: every well-behaved client was admitted and exchanged a message, established traffic continues, exactly one AcceptFailed event per handshake that failed and none for silent stallers; distinct = distinct (cell, plan, schedule, transport)",
+        rule: "the case index enumerates bound socket type (9) x transport {tcp, ipc} x staller behaviour {stop sending, close, switch to garbage} x every byte offset 0..=N of greeting+READY at which the first staller acts; 0..2 further stallers with drawn offsets/behaviours (one disturbed case in sixteen: a crowd of 100..160 simultaneous silent stallers; one in sixty-four: 1030..1200 well-behaved clients come and go one after the other behind the stallers); well-behaved clients connect before, during (after each staller) and after, an established peer exchanges traffic before and after; first undisturbed, then under drawn transport/schedule; judged at quiescence: every well-behaved client was admitted and exchanged a message, established traffic continues, exactly one AcceptFailed event per handshake that failed and none for silent stallers; distinct = distinct (cell, plan, schedule, transport)",
         assumptions: &["REQ is judged with a single well-behaved client (its rotation would otherwise send the probe to another admitted peer)", "a staller that has sent the complete greeting+READY is a well-behaved silent peer, not a failure"],
         strata: vec![Stratum { name: "stallers", quick: 54 * n + 60_000, thorough: (54 * n * 100) * 20, exhaustive: (false, false), run: stallers, what: "stallers at every handshake byte offset, good clients before/during/after" }],
     }
